@@ -325,6 +325,7 @@ func runC44(w *World, r *Report) {
 	c44SecretLoads(w, r, serverPkgs)
 	c44Restricted(w, r, defs)
 	c44ClearText(w, r)
+	c44SettingsLog(w, r, defs)
 }
 
 // c44SecretLoads: R-C44-4.
